@@ -64,6 +64,11 @@ func (r *GraphemeReader) ReadByte() (byte, error) {
 	}
 	b := r.data[r.start]
 	r.start++
+	// A control byte or escape sequence separates what came before it from
+	// what follows: a dangling joiner or an unpaired regional indicator no
+	// longer claims the next cluster (which may land anywhere on the screen).
+	r.forceMergeNext = false
+	r.lastWasRI = false
 	return b, nil
 }
 
